@@ -84,6 +84,9 @@ type party struct {
 	runErr     error
 	closeErr   error
 	out        []*big.Int
+	out2       []*big.Int
+	runErr2    error
+	ran2       bool
 	triples    gmw.Triples
 	gotTriples bool
 	done       bool
@@ -143,6 +146,22 @@ func (w *world) Run(t *rt.Tape, trace bool) *core.Result {
 		rt.SetKnob("gmw.batchSize.first", first)
 		rt.SetKnob("gmw.batchSize.next", next)
 		knobs = fmt.Sprintf("lowWaterMark=%d words, batch sizes %d then %d triples", low, first, next)
+	}
+
+	// One case in four: the parties evaluate a second circuit on the same
+	// network objects afterwards (Run twice between Connect and Close): with the
+	// same input widths (new inputs) or with another generated circuit.
+	var circ2 *circuit.Circuit
+	var in2, want2 []*big.Int
+	if t.Choose(rt.SGen, 4) == 0 {
+		circ2 = circ
+		if t.Choose(rt.SGen, 2) == 0 {
+			circ2 = gen.Circuit(t, gen.CircuitOpts{Parties: n, GMW: true, MaxIn: 12, MaxGates: 120})
+			circ2.AssignLevels(utils.TargetGMW)
+		}
+		in2 = gen.Inputs(t, circ2)
+		want2 = gen.Eval(circ2, in2)
+		res.Reach["second-run-on-the-same-network"]++
 	}
 
 	net := simnet.Current()
@@ -216,6 +235,11 @@ func (w *world) Run(t *rt.Tape, trace bool) *core.Result {
 				rt.Sleep(runDelay[p.id])
 				p.out, p.runErr = p.nw.Run(in[p.id], circ, false)
 				rt.Tracef("HARNESS party %d: Run returned %s err=%v", p.id, gen.FmtInts(p.out), p.runErr)
+				if circ2 != nil && p.runErr == nil {
+					p.out2, p.runErr2 = p.nw.Run(in2[p.id], circ2, false)
+					p.ran2 = true
+					rt.Tracef("HARNESS party %d: second Run returned %s err=%v", p.id, gen.FmtInts(p.out2), p.runErr2)
+				}
 				p.closeErr = p.nw.Close()
 			})
 		}
@@ -283,6 +307,19 @@ func (w *world) Run(t *rt.Tape, trace bool) *core.Result {
 	for _, p := range ps {
 		if !gen.EqualOutputs(p.out, want) {
 			return fail("wrong-output", fmt.Sprintf("party %d returned %s, plain evaluation gives %s", p.id, gen.FmtInts(p.out), gen.FmtInts(want)))
+		}
+	}
+	if circ2 != nil {
+		for _, p := range ps {
+			if !p.ran2 {
+				return fail("did-not-terminate", fmt.Sprintf("party %d never got to the second Run on the network", p.id))
+			}
+			if p.runErr2 != nil {
+				return fail("run-error", fmt.Sprintf("party %d: second Run on the same network (%s): %v", p.id, gen.Describe(circ2), p.runErr2))
+			}
+			if !gen.EqualOutputs(p.out2, want2) {
+				return fail("wrong-output", fmt.Sprintf("second Run on the same network (%s): party %d returned %s, plain evaluation gives %s", gen.Describe(circ2), p.id, gen.FmtInts(p.out2), gen.FmtInts(want2)))
+			}
 		}
 	}
 	return res
